@@ -417,9 +417,25 @@ def check(case):
                               'flagged': [(s['bc'], s['id']) for s in flagged],
                               'deck': text, 'argv': argv}, labels)
     # (B)
+    unflagged_written = set()
+    for s2 in deck['surfaces']:
+        if s2['bc'] or s2['kind'].lower() in mgeom.MACRO_KINDS:
+            continue
+        for sid, ts in t4.surfs.items():
+            if ts.params is not None and same_locus(s2, trs, ts, Q):
+                unflagged_written.add(sid)
     for s in flagged:
         ws = written[s['id']]
         if not ws or s['id'] not in used:
+            continue
+        exact_dup = any(s2 is not s and s2['kind'] == s['kind']
+                        and list(s2['params']) == list(s['params'])
+                        and s2.get('tr') == s.get('tr')
+                        for s2 in deck['surfaces'])
+        if s['id'] not in ws and ws <= unflagged_written and not exact_dup:
+            # the flagged card itself is not written (its piece was pruned)
+            # and what is written may stem from an unflagged card with the
+            # same zero set up to the last bits: not asserted (assumptions)
             continue
         n = sum(1 for kind, sid in entries
                 if kind == KIND[s['bc']] and sid in ws)
